@@ -23,7 +23,7 @@ def sh(cmd, **kw):
 
 def work(job):
     k, ds = job
-    wt = "/tmp/seedrc-%d" % k
+    wt = "/tmp/seedrc-%d-%d" % (os.getpid(), k)
     sh("git -C /repo worktree remove --force %s" % wt)
     sh("git -C /repo worktree add --detach %s HEAD" % wt)
     for d in ds:
